@@ -652,16 +652,88 @@ Proof.
     unfold bindings_of in Hown; cbn [fst snd] in Hown. rewrite N.sub_diag in Hown.
     cbn in Hown. inversion Hown; subst.
     unfold Scope.scope_of. cbn [app existsb negb].
-    rewrite Hinh. f_equal. clear. induction inherited as [|x l IH]; cbn; congruence.
+    rewrite Hinh. f_equal. clear.
+    induction inherited as [|x l IH]; cbn [filter negb]; [reflexivity|]. rewrite <- IH; reflexivity.
   - destruct pns as [pa pe]. cbn [fst snd] in *.
-    inv_bind H. inv_bind Hk0. apply short_range_ok in Hb0. inversion Hk1; subst; clear Hk1.
+    apply bind_ok in H. destruct H as [d1 [Hb H]].
+    apply bind_ok in H. destruct H as [r1 [Hsr H]].
+    apply short_range_ok in Hsr. inversion H; subst; clear H.
     cbn [c_doc set_doc].
     unfold bindings_of in Hinh; cbn [fst snd] in Hinh.
-    destruct (resolve_ns_loop_spec text _ _ _ _ _ _ Hok Hs) with (2 := Hinh) (3 := Hown) (4 := Hb)
-      as [Hok' [Hs' Hres]].
+    clear Hroot.
+    assert (Hlt : forall i, In i (N_range pa (N.to_nat (pe - pa))) -> i < c_ns_start_idx c).
     { intros i Hi. apply In_N_range in Hi. lia. }
+    destruct (resolve_ns_loop_spec text _ _ _ _ _ _ Hok Hs Hlt Hinh Hown Hb) as [Hok' [Hs' Hres]].
     split; [assumption|]. rewrite Hres. f_equal.
     rewrite <- (app_nil_r own) at 1.
     rewrite copy_loop_filter; [reflexivity|assumption|intros ? ? []].
 Qed.
 Print Assumptions scopes_refine.
+
+(* ---- the statement of scopes_refine without the uniqueness hypothesis is false ----
+   Parent range = [p -> 1; p -> 2] (the same prefix twice), own declarations = [q -> 3].
+   The copying loop tests a parent binding against the whole range of the element, which
+   contains the bindings copied so far: the second p is not copied.  scope_of keeps it.
+   (Such a parent range is not reachable: duplicate_declaration_rejected and
+   scope_prefixes_unique make every range prefix-unique.) *)
+Definition cx_doc : document :=
+  {| d_nodes := [{| nd_parent := None; nd_prev_sibling := None; nd_next_subtree := None;
+                    nd_last_child := None;
+                    nd_kind := KElement None empty_slice (0, 0) (0, 2); nd_range := (0, 0) |}];
+     d_attrs := [];
+     d_ns_values := [{| ns_name := Some (SStatic [112]); ns_uri := Owned [1] |};
+                     {| ns_name := Some (SStatic [112]); ns_uri := Owned [2] |};
+                     {| ns_name := Some (SStatic [113]); ns_uri := Owned [3] |}];
+     d_ns_tree := [0; 1; 2] |}.
+Definition cx_ctx : context :=
+  {| c_opt := {| allow_dtd := false; nodes_limit := 10 |}; c_ns_start_idx := 2;
+     c_cur_attrs := []; c_awaiting := []; c_parent_prefixes := []; c_entities := [];
+     c_after_text := []; c_parent_id := 0; c_tag_name := tag_name_null; c_entity_floor := 0;
+     c_ld := ld_init; c_doc := cx_doc |}.
+
+Lemma cx_ns_ok : ns_ok cx_doc.
+Proof.
+  intros p vi H. unfold nth_N in H. destruct (len_N (d_ns_tree cx_doc) <=? p); [discriminate|].
+  cbn [cx_doc d_ns_tree d_ns_values] in *.
+  destruct (N.to_nat p) as [|[|[|[|n]]]]; cbn in H; inversion H; reflexivity.
+Qed.
+
+Theorem scopes_refine_needs_unique :
+  ~ (forall text c r c' pnd pns own inherited,
+      ns_ok (c_doc c) ->
+      nth_N (d_nodes (c_doc c)) (c_parent_id c) = Some pnd ->
+      (match nd_kind pnd with KElement _ _ _ nss => pns = nss | _ => pns = (0, 0) end) ->
+      snd pns <= c_ns_start_idx c -> c_ns_start_idx c <= len_N (d_ns_tree (c_doc c)) ->
+      bindings_of text (c_doc c) pns = Some inherited ->
+      bindings_of text (c_doc c) (c_ns_start_idx c, len_N (d_ns_tree (c_doc c))) = Some own ->
+      resolve_namespaces text c = Ok (r, c') ->
+      ns_ok (c_doc c') /\ bindings_of text (c_doc c') r = Some (Scope.scope_of own inherited)).
+Proof.
+  intros H.
+  let v := eval vm_compute in (resolve_namespaces [] cx_ctx) in
+  assert (E : resolve_namespaces [] cx_ctx = v) by (vm_compute; reflexivity).
+  apply (H [] cx_ctx _ _ _ (0, 2) [(Some [113], [3])] [(Some [112], [1]); (Some [112], [2])]
+           cx_ns_ok eq_refl eq_refl) in E;
+    try (vm_compute; first [reflexivity | discriminate]).
+  destruct E as [_ E]. vm_compute in E.  discriminate E.
+Qed.
+Print Assumptions scopes_refine_needs_unique.
+
+(* ---- the statement of unknown_prefix_rejected without the range hypotheses is false ----
+   An inverted range (1, 0) denotes no binding at all (bindings_of = Some []), but slicing the
+   tree order with it panics (P_slice) instead of returning an error.  Ranges produced by
+   resolve_namespaces are never inverted; unknown_prefix_never_ok covers the general case. *)
+Theorem unknown_prefix_rejected_needs_range :
+  ~ (forall text d nss pos prefix sc,
+      bindings_of text d nss = Some sc ->
+      slice_bytes text prefix <> [] -> bytes_eqb (slice_bytes text prefix) ns_xml_prefix = false ->
+      Scope.lookup sc (Some (slice_bytes text prefix)) = None ->
+      exists e, get_ns_idx_by_prefix text nss pos prefix d = Err e).
+Proof.
+  intros H.
+  destruct (H [97] {| d_nodes := []; d_attrs := []; d_ns_values := []; d_ns_tree := [] |}
+              (1, 0) 0 {| sl_start := 0; sl_end := 1 |} [] eq_refl) as [e He];
+    [vm_compute; discriminate | reflexivity | reflexivity |].
+  vm_compute in He. discriminate He.
+Qed.
+Print Assumptions unknown_prefix_rejected_needs_range.
